@@ -51,6 +51,8 @@ class ClassRef(Obj):
             return BoundFunc(self.rt, m, None)
         v = self.rt.proj.lookup_class_attr(self.cls, name)
         if v is not None:
+            if any(b.split(".")[-1] in ("Enum", "IntEnum") for c in self.rt.proj.mro(self.cls) for b in c.external_bases):
+                return self.rt.enum_member(self.cls, name, ev.ev(v))
             return ev.ev(v)
         raise Unsupported(f"class attribute {self.cls.name}.{name}", node)
 
@@ -63,6 +65,26 @@ class ClassRef(Obj):
 
     def __hash__(self):
         return hash(self.cls.qualname)
+
+
+class EnumMember(Obj):
+    def __init__(self, cls: ClassInfo, name: str, value):
+        super().__init__(f"{cls.name}.{name}")
+        self.cls = cls
+        self.member = name
+        self.attrs = {"name": name, "value": value}
+
+    def __eq__(self, other):
+        return isinstance(other, EnumMember) and other.cls is self.cls and other.member == self.member
+
+    def __hash__(self):
+        return hash((self.cls.qualname, self.member))
+
+    def __repr__(self):
+        return f"{self.cls.name}.{self.member}"
+
+    def abs_str(self):
+        return f"{self.cls.name}.{self.member}"
 
 
 class Instance(Obj):
@@ -194,6 +216,7 @@ class Runtime:
         self.externals: Dict[str, Any] = {}       # dotted external name -> abstract value / callable hook
         self.max_steps = 400000
         self.depth = 0
+        self._enums: Dict[Tuple[str, str], Any] = {}
         self.sym_compare = None                   # default hook for comparisons of symbolic values
         self.overrides: Dict[str, Any] = {}       # FuncInfo.qualname -> callable(args, kw) replacing the body
 
@@ -254,6 +277,12 @@ class Runtime:
         if init is not None:
             self.invoke(init, [inst] + list(args), kw, parent)
         return inst
+
+    def enum_member(self, cls: ClassInfo, name: str, value) -> "EnumMember":
+        key = (cls.qualname, name)
+        if key not in self._enums:
+            self._enums[key] = EnumMember(cls, name, value)
+        return self._enums[key]
 
     def is_exception(self, cls: ClassInfo) -> bool:
         for c in self.proj.mro(cls):
